@@ -23,14 +23,14 @@ S2(coin, u, v, w, i, j, fn, d2, d3) ==
      \/ coin = 2 /\ nops >= 2 /\ Abort
      \/ (coin \in {1, 2, 3, 8, 10} \/ Live(loc) = {}) /\ Create(SlotPl(i))
      \/ coin \in {3, 9} /\ Create(d2)
-     \/ coin \in {1, 2, 3, 4, 5, 6, 7} /\ MoveSome(u, coin <= 5, fn)
+     \/ coin \in {1, 2, 3, 4, 5, 6, 7, 8} /\ MoveSome(u, coin <= 5, fn)
      \/ coin = 8 /\ Move(v, d3, FALSE)
-     \/ coin = 8 /\ Swap(i, j)
-     \/ coin = 9 /\ Shift(w, v, d3)
+     \/ coin \in {6, 8} /\ Swap(i, j)
+     \/ coin \in {5, 9} /\ Shift(w, v, d3)
      \/ coin = 9 /\ Shift(w, u, d2)
      \/ coin = 10 /\ Destroy(u)
-     \/ coin = 10 /\ BadSome(u)
-     \/ coin \in {4, 7} /\ Peek
+     \/ coin \in {6, 10} /\ BadSome(u)
+     \/ coin \in {4, 7, 9} /\ Peek
 S1(coin, live) ==
   S2(coin, Pick(live, 1), Pick(live, 1), Pick(live \cup {0}, 0), Rnd(Slots), Rnd(Slots), Rnd(BOOLEAN),
      Pick(Cand(loc), SlotPl(1)), Rnd(SlotPlaces \cup StorePlaces))
